@@ -175,6 +175,90 @@ theorem pass3_reindexed (n : Nat) (s0 : CO) : ∀ (l : List Nat) (s : CO),
     · exact h.step _ _ (by omega) (by omega)
     · exact h
 
+theorem tr_comm_disjoint (a b c d x : Nat) (h1 : a ≠ c) (h2 : a ≠ d) (h3 : b ≠ c) (h4 : b ≠ d) :
+    tr a b (tr c d x) = tr c d (tr a b x) := by
+  unfold tr
+  repeat' split
+  all_goals omega
+
+theorem argminAux_bound : ∀ (xs : List Rat) (idx : Nat) (cur : Rat) (best : Nat),
+    best < idx → argminAux xs idx cur best < idx + xs.length := by
+  intro xs
+  induction xs with
+  | nil => intro idx cur best h; simpa [argminAux] using h
+  | cons x xs ih =>
+    intro idx cur best h
+    unfold argminAux
+    split
+    · have := ih (idx + 1) x idx (by omega); simp only [List.length_cons]; omega
+    · have := ih (idx + 1) cur best (by omega); simp only [List.length_cons]; omega
+
+theorem argmin_lt (l : List Rat) (h : l ≠ []) : argmin l < l.length := by
+  cases l with
+  | nil => exact absurd rfl h
+  | cons x xs =>
+    unfold argmin
+    have := argminAux_bound xs 1 x 0 (by omega)
+    simp only [List.length_cons]; omega
+
+theorem swapList_length (l : List Rat) (i j : Nat) : (swapList l i j).length = l.length := by
+  simp [swapList]
+
+/-- one step of the insertion-sort pass (the literal six-swap sequence) reindexes by the product of the two
+disjoint transpositions `(i am)` and `(n+i n+am)` -/
+theorem pass4_step {s0 s : CO} {n : Nat} (h : Reindexed s0 s (2 * n)) (i am : Nat) (hi : i < n) (ham : am < n) :
+    Reindexed s0
+      ⟨swapCols (swapRows (swapCols (swapRows s.canonical i am) (n + i) (n + am)) (n + i) (n + am)) i am,
+       swapCols (swapCols s.orthogonal (n + i) (n + am)) i am⟩ (2 * n) := by
+  obtain ⟨hC, hO, π, σ, hinv, hent⟩ := h
+  have p1 : i < 2 * n := by omega
+  have p2 : am < 2 * n := by omega
+  have p3 : n + i < 2 * n := by omega
+  have p4 : n + am < 2 * n := by omega
+  have c1 := swapRows_square s.canonical (2 * n) i am hC p1 p2
+  have c2 := swapCols_square _ (2 * n) (n + i) (n + am) c1
+  have c3 := swapRows_square _ (2 * n) (n + i) (n + am) c2 p3 p4
+  have c4 := swapCols_square _ (2 * n) i am c3
+  have o1 := swapCols_square s.orthogonal (2 * n) (n + i) (n + am) hO
+  have o2 := swapCols_square _ (2 * n) i am o1
+  refine ⟨c4, o2, fun x => π (tr i am (tr (n + i) (n + am) x)), fun x => tr (n + i) (n + am) (tr i am (σ x)), ?_, ?_⟩
+  · intro x
+    exact ⟨by simp only [(hinv _).1, tr_tr], by simp only [tr_tr, (hinv _).2]⟩
+  · intro x y
+    constructor
+    · show (swapCols (swapRows (swapCols (swapRows s.canonical i am) (n + i) (n + am)) (n + i) (n + am)) i am).get x y = _
+      rw [swapCols_get _ (2 * n) i am x y c3 p1 p2,
+          swapRows_get _ (n + i) (n + am) x _ (by rw [c2.1]; exact p3) (by rw [c2.1]; exact p4),
+          swapCols_get _ (2 * n) (n + i) (n + am) _ _ c1 p3 p4,
+          swapRows_get _ i am _ _ (by rw [hC.1]; exact p1) (by rw [hC.1]; exact p2),
+          (hent _ _).1]
+      rw [tr_comm_disjoint (n + i) (n + am) i am y (by omega) (by omega) (by omega) (by omega)]
+    · show (swapCols (swapCols s.orthogonal (n + i) (n + am)) i am).get x y = _
+      rw [swapCols_get _ (2 * n) i am x y o1 p1 p2, swapCols_get _ (2 * n) (n + i) (n + am) _ _ hO p3 p4, (hent _ _).2]
+      rw [tr_comm_disjoint (n + i) (n + am) i am y (by omega) (by omega) (by omega) (by omega)]
+
+theorem pass4_reindexed (n : Nat) (s0 : CO) : ∀ (l : List Nat) (s : CO) (diag : List Rat),
+    (∀ i ∈ l, i < n) → diag.length = n → Reindexed s0 s (2 * n) → Reindexed s0 (pass4 n s diag l) (2 * n) := by
+  intro l
+  induction l with
+  | nil => intro s diag _ _ h; exact h
+  | cons i is ih =>
+    intro s diag hl hd h
+    unfold pass4
+    have hi := hl i List.mem_cons_self
+    have hne : diag.drop i ≠ [] := by
+      intro h0
+      have := congrArg List.length h0
+      simp at this; omega
+    have ham : argmin (diag.drop i) + i < n := by
+      have := argmin_lt (diag.drop i) hne
+      simp at this; omega
+    simp only
+    split
+    · apply ih _ _ (fun x hx => hl x (List.mem_cons_of_mem _ hx)) (by rw [swapList_length]; exact hd)
+      exact pass4_step h i _ hi ham
+    · exact ih _ _ (fun x hx => hl x (List.mem_cons_of_mem _ hx)) hd h
+
 theorem mem_oddRange (b i : Nat) : i ∈ oddRange b → 1 ≤ i ∧ i < b := by
   unfold oddRange
   simp only [List.mem_map, List.mem_range]
